@@ -197,3 +197,18 @@ def call_blocks_reaching(fa, b, names, crate="agdb"):
         if norm(cfg.callee(t) or "") in names or any(hits(tb) for tb in cg.targets(t)[0]):
             out.append(i)
     return out
+
+
+def call_blocks_incl_closures(fa, b, pred):
+    """Blocks of `b` where a call satisfying pred(term) happens: directly, or inside a closure that is passed to the
+    call at that block (`x.and_then(|_| f())`, `map_err`, `unwrap_or_else`, ...)."""
+    out = []
+    for i, t in cfg.calls(b):
+        if pred(t):
+            out.append(i)
+            continue
+        for cb in closure_bodies_passed(fa, b, t):
+            if any(pred(tt) for j, tt in cfg.calls(cb)):
+                out.append(i)
+                break
+    return out
